@@ -26,7 +26,23 @@ func verPipes(v string) map[string]PipeDef {
 		env = map[string]string{"RV": "c", "RW": "x"}
 	}
 	script := []string{"echo ver=" + v + " rv=${RV-unset}", "sleep 0.25"}
-	return map[string]PipeDef{"r": {Concurrency: verConc(v), Env: env, Tasks: map[string]TaskDef{"a": {Script: script}}}}
+	ql := verQueue(v)
+	var qlp *int
+	if ql >= 0 {
+		qlp = &ql
+	}
+	return map[string]PipeDef{"r": {Concurrency: verConc(v), QueueLimit: qlp, Env: env, Tasks: map[string]TaskDef{"a": {Script: script}}}}
+}
+
+// ... and the queue limit (C05: the admission rule follows the definition in force): a unlimited, b 2, c 1
+func verQueue(v string) int {
+	switch v {
+	case "b":
+		return 2
+	case "c":
+		return 1
+	}
+	return -1
 }
 
 // the concurrency limit differs between the versions too (C01: a changed limit governs the jobs started after the change)
@@ -133,9 +149,17 @@ func reloadRound(walk []string, round int) {
 		outRun, outQ := jobOutput(a, idRun), jobOutput(a, idQ)
 		// the limit in force: three requests at once, then the number of executing jobs is sampled
 		var burst []string
-		for k := 0; k < 3; k++ {
-			id, _, _ := a.Schedule("r", nil)
-			burst = append(burst, id)
+		accepted := 0
+		for k := 0; k < 5; k++ {
+			id, st, _ := a.Schedule("r", nil)
+			if st == 202 {
+				accepted++
+				burst = append(burst, id)
+			}
+		}
+		wantAccepted := 5
+		if q := verQueue(next); q >= 0 && verConc(next)+q < 5 {
+			wantAccepted = verConc(next) + q
 		}
 		maxExec := 0
 		for k := 0; k < 6; k++ {
@@ -148,7 +172,7 @@ func reloadRound(walk []string, round int) {
 			jobOutput(a, id)
 		}
 		rec := map[string]interface{}{"kind": "reload_step", "round": round, "step": step, "walk": walk, "from": cur, "to": next,
-			"running": outRun, "queued": outQ, "after": after, "tries": tries, "ok": true, "limit": verConc(next), "max_executing": maxExec}
+			"running": outRun, "queued": outQ, "after": after, "tries": tries, "ok": true, "limit": verConc(next), "max_executing": maxExec, "accepted_of_5": accepted, "accepted_expected": wantAccepted}
 		var what []string
 		if outRun != verOutput(cur) {
 			what = append(what, fmt.Sprintf("the job running during the change %s->%s printed %q, accepted under %q", cur, next, outRun, verOutput(cur)))
@@ -162,10 +186,16 @@ func reloadRound(walk []string, round int) {
 		}
 		if maxExec != verConc(next) {
 			// (judged also when the new version did not show: then the old limit is still in force although the file changed)
-			lw := fmt.Sprintf("after the definitions changed %s->%s (walk %v) the concurrency limit is %d, but %d jobs of the pipeline executed at once out of 3 requested together",
+			lw := fmt.Sprintf("after the definitions changed %s->%s (walk %v) the concurrency limit is %d, but %d jobs of the pipeline executed at once out of the requests made together",
 				cur, next, walk[:step+2], verConc(next), maxExec)
 			rec["limit_what"] = lw
 			what = append(what, lw)
+		}
+		if accepted != wantAccepted {
+			aw := fmt.Sprintf("after the definitions changed %s->%s (walk %v) concurrency is %d and queue_limit %d, but %d of 5 simultaneous requests were accepted (expected %d)",
+				cur, next, walk[:step+2], verConc(next), verQueue(next), accepted, wantAccepted)
+			rec["admit_what"] = aw
+			what = append(what, aw)
 		}
 		if len(what) > 0 {
 			rec["ok"] = false
